@@ -24,6 +24,8 @@ def warm_layouts():
     C.run_tlc("Imports", "Imports.cfg", workers=12, timeout=3600)
     C.run_tlc("Positions", "Positions.cfg", workers=4, timeout=3600)
     C.run_tlc("Completion", "Completion.cfg", workers=4, timeout=3600)
+    C.run_tlc("Hostile", "Hostile_slots.cfg", workers=8, timeout=7200)
+    C.run_tlc("Hostile", "Hostile_stale.cfg", workers=4, timeout=3600)
     for g in ("use", "bind", "fix"):
         C.run_tlc("Undeclared", "Undeclared_%s.cfg" % g, workers=4, timeout=3600)
     for g in ("deco", "params", "body", "doc"):
@@ -42,6 +44,7 @@ CHECKS = {
     "C08": layouts.check_c08,
     "C09": concchecks.check_c09,
     "C10": concchecks.check_c10,
+    "C11": lspchecks.check_c11,
     "C12": concchecks.check_c12,
     "C13": diskchecks.check_c13,
     "C14": diskchecks.check_c14,
